@@ -19,9 +19,9 @@ import (
 func propC11() *fw.Prop {
 	return &fw.Prop{
 		ID: "C11", Level: "exploration",
-		Rule:        "engine built with -race (GORACE halt_on_error=0, reports collected from the log and de-duplicated by innermost repository frames). Per generated case: (i) repetition — the case is run 3× against fresh stores and the results compared structurally (map iteration order varies between runs); (ii) purity — deep renderings of the variables map, of every map the harness store handed out and of the bundled StaticStore's own maps are compared before/after; (iii) concurrency — G goroutines × M runs share ONE ParseResult, ONE variables map and either ONE StaticStore or per-goroutine harness stores that yield inside GetBalances (the library's only suspension point); every concurrent result is compared with the sequential one; (iv) flags — {nil, {}, {unknown flag}, {overdraft flag}} must give identical results unless the script calls overdraft(). Distinct = scripts run concurrently (by shape and outcome).",
+		Rule:        "engine built with -race (GORACE halt_on_error=0, reports collected from the log and de-duplicated by innermost repository frames). Per generated case: (i) repetition — the case is run 3× against fresh stores and the results compared structurally (map iteration order varies between runs); (ii) purity — deep renderings of the variables map, of every map the harness store handed out and of the bundled StaticStore's own maps are compared before/after; (iii) concurrency — G goroutines × M runs share ONE ParseResult, ONE variables map and either ONE StaticStore or per-goroutine harness stores that yield inside GetBalances (the library's only suspension point); every concurrent result is compared with the sequential one; (iv) flags — {nil, {}, {unknown flag}, {overdraft flag}} must give identical results unless the script calls overdraft(). Distinct = scripts run concurrently (by shape and outcome). Also: meta() on an account or key the store does not hold (24 cases: 6 types × 4 store contents) — sequential and 8 goroutines on one StaticStore; the store's maps must be left as they were.",
 		Assumptions: []string{trustedBase, "the race detector reports unsynchronised conflicting accesses it observes (happens-before), on the executions driven"},
-		Require:     []string{"concurrent_runs", "repetition_groups", "purity_checks", "flag_variations", "static_store_shared_runs", "max_inflight_overlap_at_store"},
+		Require:     []string{"concurrent_runs", "repetition_groups", "purity_checks", "flag_variations", "static_store_shared_runs", "max_inflight_overlap_at_store", "metadata_not_found_runs"},
 		MaxWorkers:  8,
 		Run:         runC11,
 	}
@@ -186,6 +186,16 @@ func runC11(c *fw.Ctx) {
 			continue
 		}
 		coldCase(c, id, k, strata)
+	}
+	// ---- (0') metadata that is not there: the account is unknown to the store, or known without the
+	// key, or the store holds no metadata at all — the runs fail with a metadata-not-found error, and the store's maps must be left as they were, also when
+	// several goroutines share one StaticStore ----
+	for k := 0; k < 24; k++ {
+		id := "meta-absent/" + itoa(k)
+		if !c.Want(95_000_000+k, id) {
+			continue
+		}
+		metaAbsentCase(c, id, k, nG)
 	}
 	forEachCase(strata, c.N(4000, 60000), func(i int, id string, st *stratum, k int) {
 		if !c.Want(i, id) {
@@ -456,4 +466,112 @@ func runC11(c *fw.Ctx) {
 			c.Sample(map[string]any{"case": id, "input": input(""), "goroutines": nG, "runs_per_goroutine": nM, "shared_static_store": shared, "outcome": ref})
 		}
 	})
+}
+
+// metaAbsentCase: meta() on an account / key the store does not hold.
+func metaAbsentCase(c *fw.Ctx, id string, k int, nG int) {
+	typ := []string{"account", "string", "number", "monetary", "portion", "asset"}[k%6]
+	meta := map[string]map[string]string{}
+	switch (k / 6) % 4 {
+	case 0: // the account is unknown, other accounts have metadata
+		meta["other"] = map[string]string{"k": "x"}
+	case 1: // the account is known, the key is not
+		meta["ghost"] = map[string]string{"other_key": "x"}
+	case 2: // no metadata at all
+	case 3: // the account has an empty entry
+		meta["ghost"] = map[string]string{}
+	}
+	sc := &gen.Script{Vars: []*gen.VarDecl{{Type: typ, Name: "m", Origin: &gen.Call{Name: "meta", Args: []gen.Expr{gen.A("ghost"), gen.S("k")}}}},
+		Stmts: []gen.Stmt{&gen.Send{Sent: &gen.SentValue{E: gen.M("USD", "10")}, Src: gen.SA("world"), Dst: gen.DA("x")},
+			&gen.Call{Name: "set_tx_meta", Args: []gen.Expr{gen.S("seen"), gen.V("m")}}}}
+	cs := mkCase(sc, nil, map[string]string{"a/USD": "5"})
+	cs.Meta = meta
+	input := func(note string) any {
+		d := cs.Describe()
+		d["note"] = note
+		return d
+	}
+	po := real.Parse(gen.PrintCanonical(sc).Text)
+	if po.Panicked || len(po.Errors) > 0 {
+		return // cannot happen: the script is fixed text; "metadata_not_found_runs" stays 0 and the Require list reports it
+	}
+	flags := real.FlagsOf(cs)
+	// sequential, harness store that remembers what it handed out, and the bundled StaticStore
+	var ref string
+	for rep := 0; rep < 2; rep++ {
+		st := real.NewStore(real.Exact, cs.Balances, cs.Meta)
+		st.Keep = true
+		o := real.Run(po.Result, cs.Vars, flags, st)
+		c.Eval()
+		if o.Panicked {
+			c.Violation("panic:"+o.Frame, "panic: "+o.PanicVal, input("exact store"))
+			return
+		}
+		if rep == 0 {
+			ref = o.Summary()
+		} else if s := o.Summary(); s != ref {
+			c.Violation("nondeterministic", fmt.Sprintf("run 1: %s ⏎ run 2: %s", ref, s), input("exact store"))
+			return
+		}
+		if msg := st.ReturnedUnchanged(); msg != "" {
+			c.Violation("store-maps-modified", msg, input("exact store, metadata not found"))
+			return
+		}
+	}
+	ss := real.NewStore(real.Static, cs.Balances, cs.Meta)
+	sb, sm := ss.StaticContent()
+	before := renderStatic(sb, sm)
+	for rep := 0; rep < 2; rep++ {
+		var out string
+		p, v, fr := fw.Catch(func() {
+			res, err := po.Result.RunWithFeatureFlags(bg, numscript.VariablesMap{}, ss, flags)
+			out = summarize(res, err)
+		})
+		c.Eval()
+		if p {
+			c.Violation("panic:"+fr, fmt.Sprint("panic: ", v), input("static store"))
+			return
+		}
+		if now := renderStatic(sb, sm); now != before {
+			c.Violation("static-store-modified", fmt.Sprintf("StaticStore content before the run: %s ⏎ after: %s (the run: %s)", before, now, out), input("static store, metadata not found"))
+			return
+		}
+	}
+	// concurrent failing runs on ONE StaticStore (the race detector watches the store's maps)
+	shared := numscript.StaticStore{Balances: sb, Meta: sm}
+	outs := make([]string, nG)
+	var wg sync.WaitGroup
+	start := make(chan struct{})
+	for g := 0; g < nG; g++ {
+		wg.Add(1)
+		go func(g int) {
+			defer wg.Done()
+			<-start
+			for m := 0; m < 4; m++ {
+				p, v, fr := fw.Catch(func() {
+					res, err := po.Result.RunWithFeatureFlags(bg, numscript.VariablesMap{}, shared, flags)
+					outs[g] = summarize(res, err)
+				})
+				if p {
+					outs[g] = fmt.Sprintf("panic (%s): %v", fr, v)
+					return
+				}
+			}
+		}(g)
+	}
+	close(start)
+	wg.Wait()
+	c.Evals(nG * 4)
+	for g := 1; g < nG; g++ {
+		if outs[g] != outs[0] {
+			c.Violation("concurrent-result-differs", fmt.Sprintf("goroutine 0: %s ⏎ goroutine %d: %s", outs[0], g, outs[g]), input("shared static store, metadata not found"))
+			return
+		}
+	}
+	if now := renderStatic(sb, sm); now != before {
+		c.Violation("static-store-modified", fmt.Sprintf("StaticStore content before the concurrent runs: %s ⏎ after: %s", before, now), input("shared static store, metadata not found"))
+		return
+	}
+	c.Count("metadata_not_found_runs", 4+nG*4)
+	c.Distinct("meta-absent|" + typ + "|" + itoa((k/6)%4))
 }
